@@ -154,12 +154,17 @@ class ThemConditionWithSingleDetectionIssue(SigmaValidationIssue):
 class ThemConditionWithSingleDetectionValidator(SigmaRuleValidator):
     """Detect conditions referring to 'them' with only one detection."""
 
+    # 'them' as selector pattern, not as part of a detection name like selection_themida
+    re_them: ClassVar[re.Pattern[str]] = re.compile("\\bof\\s+them(?![\\w*-])")
+
     def validate(self, rule: SigmaRule | SigmaCorrelationRule) -> list[SigmaValidationIssue]:
         if isinstance(rule, SigmaCorrelationRule):
             return []  # Correlation rules do not have detections
 
         if (
-            any(["them" in condition for condition in rule.detection.condition])
+            any(
+                [self.re_them.search(condition) for condition in rule.detection.condition]
+            )
             and len(rule.detection.detections) == 1
         ):
             return [ThemConditionWithSingleDetectionIssue([rule])]
@@ -178,7 +183,7 @@ class AllOfThemConditionIssue(SigmaValidationIssue):
 class AllOfThemConditionValidator(SigmaRuleValidator):
     """Find occurrences of discouraged 'all of them' conditions."""
 
-    re_all_of_them: ClassVar[re.Pattern[str]] = re.compile("all\\s+of\\s+them")
+    re_all_of_them: ClassVar[re.Pattern[str]] = re.compile("\\ball\\s+of\\s+them(?![\\w*-])")
 
     def validate(self, rule: SigmaRule | SigmaCorrelationRule) -> list[SigmaValidationIssue]:
         if isinstance(rule, SigmaCorrelationRule):
